@@ -64,28 +64,37 @@ Record st := mkSt {
   pool : list nat;                (* objects currently in the pool *)
   held : list (nat * nat);        (* request id -> its blockingDone, from Get until Put (for ever if abandoned) *)
   nobj : nat;                     (* number of objects created so far (pool.New) *)
-  pick : nat                      (* which pooled object the next Get returns (sync.Pool: any; chosen by LPick) *)
+  pick : nat;                     (* which pooled object the next Get returns (sync.Pool: any; chosen by LPick) *)
+  (* consumers parked in Read on hasMoreElements (a sync.Cond: FIFO notify list), in arrival order;
+     true = already signalled (runnable, has to re-acquire the mutex) *)
+  cons : list (nat * bool);
+  (* persistent queue, storage faults: ids of queued requests whose stored copy has become unreadable *)
+  corrupt : list nat;
+  dropped : list nat              (* ghost: ids dropped by getNextItem (never handed over) *)
 }.
 
-Definition init : st := mkSt 0 [] [] false 0 false Free [] [] [] [] [] [] [] [] 0%nat 0%nat.
+Definition init : st := mkSt 0 [] [] false 0 false Free [] [] [] [] [] [] [] [] 0%nat 0%nat [] [] [].
 
-Definition set_size v s := mkSt v (items s) (inflight s) (stopped s) (waiting s) (tok s) (lock s) (prods s) (cancelled s) (results s) (acc s) (hand s) (fin s) (pool s) (held s) (nobj s) (pick s).
-Definition set_items v s := mkSt (size s) v (inflight s) (stopped s) (waiting s) (tok s) (lock s) (prods s) (cancelled s) (results s) (acc s) (hand s) (fin s) (pool s) (held s) (nobj s) (pick s).
-Definition set_inflight v s := mkSt (size s) (items s) v (stopped s) (waiting s) (tok s) (lock s) (prods s) (cancelled s) (results s) (acc s) (hand s) (fin s) (pool s) (held s) (nobj s) (pick s).
-Definition set_stopped v s := mkSt (size s) (items s) (inflight s) v (waiting s) (tok s) (lock s) (prods s) (cancelled s) (results s) (acc s) (hand s) (fin s) (pool s) (held s) (nobj s) (pick s).
-Definition set_waiting v s := mkSt (size s) (items s) (inflight s) (stopped s) v (tok s) (lock s) (prods s) (cancelled s) (results s) (acc s) (hand s) (fin s) (pool s) (held s) (nobj s) (pick s).
-Definition set_tok v s := mkSt (size s) (items s) (inflight s) (stopped s) (waiting s) v (lock s) (prods s) (cancelled s) (results s) (acc s) (hand s) (fin s) (pool s) (held s) (nobj s) (pick s).
-Definition set_lock v s := mkSt (size s) (items s) (inflight s) (stopped s) (waiting s) (tok s) v (prods s) (cancelled s) (results s) (acc s) (hand s) (fin s) (pool s) (held s) (nobj s) (pick s).
-Definition set_prods v s := mkSt (size s) (items s) (inflight s) (stopped s) (waiting s) (tok s) (lock s) v (cancelled s) (results s) (acc s) (hand s) (fin s) (pool s) (held s) (nobj s) (pick s).
-Definition set_cancelled v s := mkSt (size s) (items s) (inflight s) (stopped s) (waiting s) (tok s) (lock s) (prods s) v (results s) (acc s) (hand s) (fin s) (pool s) (held s) (nobj s) (pick s).
-Definition set_results v s := mkSt (size s) (items s) (inflight s) (stopped s) (waiting s) (tok s) (lock s) (prods s) (cancelled s) v (acc s) (hand s) (fin s) (pool s) (held s) (nobj s) (pick s).
-Definition set_acc v s := mkSt (size s) (items s) (inflight s) (stopped s) (waiting s) (tok s) (lock s) (prods s) (cancelled s) (results s) v (hand s) (fin s) (pool s) (held s) (nobj s) (pick s).
-Definition set_hand v s := mkSt (size s) (items s) (inflight s) (stopped s) (waiting s) (tok s) (lock s) (prods s) (cancelled s) (results s) (acc s) v (fin s) (pool s) (held s) (nobj s) (pick s).
-Definition set_fin v s := mkSt (size s) (items s) (inflight s) (stopped s) (waiting s) (tok s) (lock s) (prods s) (cancelled s) (results s) (acc s) (hand s) v (pool s) (held s) (nobj s) (pick s).
-Definition set_pool v s := mkSt (size s) (items s) (inflight s) (stopped s) (waiting s) (tok s) (lock s) (prods s) (cancelled s) (results s) (acc s) (hand s) (fin s) v (held s) (nobj s) (pick s).
-Definition set_held v s := mkSt (size s) (items s) (inflight s) (stopped s) (waiting s) (tok s) (lock s) (prods s) (cancelled s) (results s) (acc s) (hand s) (fin s) (pool s) v (nobj s) (pick s).
-Definition set_nobj v s := mkSt (size s) (items s) (inflight s) (stopped s) (waiting s) (tok s) (lock s) (prods s) (cancelled s) (results s) (acc s) (hand s) (fin s) (pool s) (held s) v (pick s).
-Definition set_pick v s := mkSt (size s) (items s) (inflight s) (stopped s) (waiting s) (tok s) (lock s) (prods s) (cancelled s) (results s) (acc s) (hand s) (fin s) (pool s) (held s) (nobj s) v.
+Definition set_size v s := mkSt v (items s) (inflight s) (stopped s) (waiting s) (tok s) (lock s) (prods s) (cancelled s) (results s) (acc s) (hand s) (fin s) (pool s) (held s) (nobj s) (pick s) (cons s) (corrupt s) (dropped s).
+Definition set_items v s := mkSt (size s) v (inflight s) (stopped s) (waiting s) (tok s) (lock s) (prods s) (cancelled s) (results s) (acc s) (hand s) (fin s) (pool s) (held s) (nobj s) (pick s) (cons s) (corrupt s) (dropped s).
+Definition set_inflight v s := mkSt (size s) (items s) v (stopped s) (waiting s) (tok s) (lock s) (prods s) (cancelled s) (results s) (acc s) (hand s) (fin s) (pool s) (held s) (nobj s) (pick s) (cons s) (corrupt s) (dropped s).
+Definition set_stopped v s := mkSt (size s) (items s) (inflight s) v (waiting s) (tok s) (lock s) (prods s) (cancelled s) (results s) (acc s) (hand s) (fin s) (pool s) (held s) (nobj s) (pick s) (cons s) (corrupt s) (dropped s).
+Definition set_waiting v s := mkSt (size s) (items s) (inflight s) (stopped s) v (tok s) (lock s) (prods s) (cancelled s) (results s) (acc s) (hand s) (fin s) (pool s) (held s) (nobj s) (pick s) (cons s) (corrupt s) (dropped s).
+Definition set_tok v s := mkSt (size s) (items s) (inflight s) (stopped s) (waiting s) v (lock s) (prods s) (cancelled s) (results s) (acc s) (hand s) (fin s) (pool s) (held s) (nobj s) (pick s) (cons s) (corrupt s) (dropped s).
+Definition set_lock v s := mkSt (size s) (items s) (inflight s) (stopped s) (waiting s) (tok s) v (prods s) (cancelled s) (results s) (acc s) (hand s) (fin s) (pool s) (held s) (nobj s) (pick s) (cons s) (corrupt s) (dropped s).
+Definition set_prods v s := mkSt (size s) (items s) (inflight s) (stopped s) (waiting s) (tok s) (lock s) v (cancelled s) (results s) (acc s) (hand s) (fin s) (pool s) (held s) (nobj s) (pick s) (cons s) (corrupt s) (dropped s).
+Definition set_cancelled v s := mkSt (size s) (items s) (inflight s) (stopped s) (waiting s) (tok s) (lock s) (prods s) v (results s) (acc s) (hand s) (fin s) (pool s) (held s) (nobj s) (pick s) (cons s) (corrupt s) (dropped s).
+Definition set_results v s := mkSt (size s) (items s) (inflight s) (stopped s) (waiting s) (tok s) (lock s) (prods s) (cancelled s) v (acc s) (hand s) (fin s) (pool s) (held s) (nobj s) (pick s) (cons s) (corrupt s) (dropped s).
+Definition set_acc v s := mkSt (size s) (items s) (inflight s) (stopped s) (waiting s) (tok s) (lock s) (prods s) (cancelled s) (results s) v (hand s) (fin s) (pool s) (held s) (nobj s) (pick s) (cons s) (corrupt s) (dropped s).
+Definition set_hand v s := mkSt (size s) (items s) (inflight s) (stopped s) (waiting s) (tok s) (lock s) (prods s) (cancelled s) (results s) (acc s) v (fin s) (pool s) (held s) (nobj s) (pick s) (cons s) (corrupt s) (dropped s).
+Definition set_fin v s := mkSt (size s) (items s) (inflight s) (stopped s) (waiting s) (tok s) (lock s) (prods s) (cancelled s) (results s) (acc s) (hand s) v (pool s) (held s) (nobj s) (pick s) (cons s) (corrupt s) (dropped s).
+Definition set_pool v s := mkSt (size s) (items s) (inflight s) (stopped s) (waiting s) (tok s) (lock s) (prods s) (cancelled s) (results s) (acc s) (hand s) (fin s) v (held s) (nobj s) (pick s) (cons s) (corrupt s) (dropped s).
+Definition set_held v s := mkSt (size s) (items s) (inflight s) (stopped s) (waiting s) (tok s) (lock s) (prods s) (cancelled s) (results s) (acc s) (hand s) (fin s) (pool s) v (nobj s) (pick s) (cons s) (corrupt s) (dropped s).
+Definition set_nobj v s := mkSt (size s) (items s) (inflight s) (stopped s) (waiting s) (tok s) (lock s) (prods s) (cancelled s) (results s) (acc s) (hand s) (fin s) (pool s) (held s) v (pick s) (cons s) (corrupt s) (dropped s).
+Definition set_pick v s := mkSt (size s) (items s) (inflight s) (stopped s) (waiting s) (tok s) (lock s) (prods s) (cancelled s) (results s) (acc s) (hand s) (fin s) (pool s) (held s) (nobj s) v (cons s) (corrupt s) (dropped s).
+Definition set_cons v s := mkSt (size s) (items s) (inflight s) (stopped s) (waiting s) (tok s) (lock s) (prods s) (cancelled s) (results s) (acc s) (hand s) (fin s) (pool s) (held s) (nobj s) (pick s) v (corrupt s) (dropped s).
+Definition set_corrupt v s := mkSt (size s) (items s) (inflight s) (stopped s) (waiting s) (tok s) (lock s) (prods s) (cancelled s) (results s) (acc s) (hand s) (fin s) (pool s) (held s) (nobj s) (pick s) (cons s) v (dropped s).
+Definition set_dropped v s := mkSt (size s) (items s) (inflight s) (stopped s) (waiting s) (tok s) (lock s) (prods s) (cancelled s) (results s) (acc s) (hand s) (fin s) (pool s) (held s) (nobj s) (pick s) (cons s) (corrupt s) v.
 
 (* ---- the thread map ------------------------------------------------------------------------ *)
 Fixpoint pget (p : nat) (m : list (nat * pstate)) : option pstate :=
@@ -121,6 +130,20 @@ Definition signal (k : pending) (s : st) : st :=
     let s1 := set_waiting (waiting s - 1) s in
     if tok s1 then set_lock (BSend k) s1
     else deliver k (set_tok true s1).
+
+(* ---- hasMoreElements (sync.Cond): Signal wakes the longest-waiting parked consumer, Broadcast all ---- *)
+Fixpoint wake1 (l : list (nat * bool)) : list (nat * bool) :=
+  match l with
+  | [] => []
+  | (k, w) :: r => if w then (k, w) :: wake1 r else (k, true) :: r
+  end.
+Definition wakeall (l : list (nat * bool)) : list (nat * bool) := map (fun x => (fst x, true)) l.
+Fixpoint cfind (k : nat) (l : list (nat * bool)) : option bool :=
+  match l with [] => None | (q, w) :: r => if Nat.eqb q k then Some w else cfind k r end.
+Fixpoint crem (k : nat) (l : list (nat * bool)) : list (nat * bool) :=
+  match l with [] => [] | (q, w) :: r => if Nat.eqb q k then r else (q, w) :: crem k r end.
+Fixpoint ccount (b : bool) (l : list (nat * bool)) : Z :=
+  match l with [] => 0 | (_, w) :: r => (if Bool.eqb w b then 1 else 0) + ccount b r end.
 
 (* ---- cond.Broadcast (called with the mutex held) ---------------------------------------------------
      for ; c.waiting > 0; c.waiting-- { c.ch <- struct{}{} }
@@ -164,7 +187,8 @@ Definition enqueue (c : cfg) (p : nat) (sz : Z) (s0 : st) : st :=
   let s1 := set_size (size s + sz) s in
   let s2 := set_items (items s1 ++ [(p, sz)]) s1 in
   let s3 := set_acc (acc s2 ++ [p]) s2 in
-  setp p (if wfr_eff c then PAwait else PRet ROk) s3.
+  let s4 := set_cons (wake1 (cons s3)) s3 in                     (* hasMoreElements.Signal() *)
+  setp p (if wfr_eff c then PAwait else PRet ROk) s4.
 
 (* result codes reported to the correspondence harness *)
 Definition c_enq : Z := 0.     Definition c_full : Z := 1.   Definition c_toolarge : Z := 2.
@@ -216,6 +240,40 @@ Definition read (c : cfg) (s : st) : option (st * Z) :=
            end
   end.
 
+(* ---- Read by an identified consumer k, which may park in hasMoreElements.Wait() ---------------------
+   [read] above is the fault-free section of a Read that returns at once.  [cread] is one iteration of the loop in
+   Read executed by consumer k with the mutex held: return an item / return false / park.  With storage faults
+   (persistent queue, [corrupt] non-empty) getNextItem fails on unreadable items: they are dropped (never handed
+   over, their size is NOT released) and the loop goes on; whenever the read index catches up with the write index
+   — after a consumed OR a dropped item — the size is reset to 0 and hasMoreSpace is signalled. *)
+Definition c_parked : Z := 30.
+
+Fixpoint skipbad (bad : list nat) (its : list (nat * Z)) : list (nat * Z) * list (nat * Z) :=
+  match its with
+  | [] => ([], [])
+  | (p, sz) :: r => if memb p bad then ((p, sz) :: fst (skipbad bad r), snd (skipbad bad r)) else ([], its)
+  end.
+
+Definition park (k : nat) (s : st) : st * Z := (set_cons (cons s ++ [(k, false)]) s, c_parked).
+
+Definition cread_faulty (c : cfg) (k : nat) (s : st) : st * Z :=
+  if stopped s then (s, c_closed) else
+  let d := fst (skipbad (corrupt s) (items s)) in
+  let s1 := set_dropped (dropped s ++ map fst d) (set_items (snd (skipbad (corrupt s) (items s))) s) in
+  match snd (skipbad (corrupt s) (items s)) with
+  | (p, sz) :: r =>
+      let s2 := handoff p sz r s1 in
+      (match r with [] => signal PendNone (set_size 0 s2) | _ => s2 end, 10 + Z.of_nat p)
+  | [] =>
+      park k (match d with [] => s1 | _ => signal PendNone (set_size 0 s1) end)
+  end.
+
+Definition cread (c : cfg) (k : nat) (s : st) : st * Z :=
+  match corrupt s, kind c with
+  | _ :: _, Pers => cread_faulty c k s
+  | _, _ => match read c s with Some r => r | None => park k s end
+  end.
+
 (* ---- OnDone --------------------------------------------------------------------------------- *)
 Fixpoint find_id (id : nat) (l : list (nat * Z)) : option Z :=
   match l with
@@ -261,7 +319,10 @@ Inductive label :=
 | LShutdown
 | LPick (b : nat)               (* environment: the next blockingDonePool.Get returns pooled object b (if pooled) *)
 | LObj (p b : nat)              (* observation only: "request p carries blockingDone b"; refused if it does not *)
-| LBroadcast.                   (* cond API: hasMoreSpace.Broadcast() under the mutex (not called by the queues) *)
+| LBroadcast                    (* cond API: hasMoreSpace.Broadcast() under the mutex (not called by the queues) *)
+| LCRead (k : nat)              (* consumer k calls Read: Lock, first loop iteration (item / false / park) *)
+| LCWake (k : nat)              (* signalled consumer k re-acquires the mutex: next loop iteration *)
+| LCorrupt (id : nat).          (* storage fault: the stored copy of queued request id becomes unreadable *)
 
 Definition lock_free (s : st) : bool := match lock s with Free => true | _ => false end.
 
@@ -332,7 +393,20 @@ Definition step (c : cfg) (s : st) (l : label) : option (st * Z) :=
       | Some PAwait => if memb p (cancelled s) then Some (setp p (PRet RCtx) s, c_ctx) else None
       | _ => None
       end
-  | LShutdown => if lock_free s then Some (set_stopped true s, 0) else None
+  | LShutdown =>                   (* stopped = true; hasMoreElements.Broadcast() *)
+      if lock_free s then Some (set_cons (wakeall (cons s)) (set_stopped true s), 0) else None
+  | LCRead k =>
+      if lock_free s then
+        match cfind k (cons s) with None => Some (cread c k s) | Some _ => None end
+      else None
+  | LCWake k =>
+      if lock_free s then
+        match cfind k (cons s) with
+        | Some true => Some (cread c k (set_cons (crem k (cons s)) s))
+        | _ => None
+        end
+      else None
+  | LCorrupt id => Some (set_corrupt (id :: corrupt s) s, 0)
   | LPick b => Some (set_pick b s, 0)
   | LObj p b => match hget p (held s) with
                 | Some b' => if Nat.eqb b' b then Some (s, 0) else None
@@ -355,6 +429,7 @@ Definition wf_label (c : cfg) (l : label) : Prop :=
   match l with
   | LOffer _ sz => kind c = Pers -> 0 <= sz
   | LBroadcast => False            (* never issued by the queues *)
+  | LCorrupt _ => False            (* storage faults are outside the property's theorems (Proofs8: what is proved) *)
   | _ => True
   end.
 
@@ -365,7 +440,7 @@ Definition reachable (c : cfg) (s : st) : Prop :=
    opposed to the environment's (a new Offer, a cancellation, Shutdown) *)
 Definition internal (l : label) : bool :=
   match l with
-  | LOffer _ _ | LCancel _ | LShutdown | LPick _ | LObj _ _ | LBroadcast => false
+  | LOffer _ _ | LCancel _ | LShutdown | LPick _ | LObj _ _ | LBroadcast | LCRead _ | LCorrupt _ => false
   | _ => true
   end.
 
@@ -436,9 +511,9 @@ Definition is_await (v : pstate) : bool := match v with PAwait => true | _ => fa
 (* every internal step of a running queue strictly decreases this natural-number measure *)
 Definition mu (s : st) : Z :=
   6 * Z.of_nat (length (items s)) + 3 * Z.of_nat (length (inflight s)) +
-  7 * cnt is_insel (prods s) + 8 * cnt is_lefttok (prods s) + cnt is_leftctx (prods s) +
+  8 * cnt is_insel (prods s) + 9 * cnt is_lefttok (prods s) + cnt is_leftctx (prods s) +
   cnt is_await (prods s) + 2 * (b2z (tok s) + sb s) +
-  2 * (match lock s with BBcast => waiting s | _ => 0 end).
+  2 * (match lock s with BBcast => waiting s | _ => 0 end) + ccount true (cons s).
 
 (* runs of the cond API: every label, including Broadcast *)
 Definition reachable_api (c : cfg) (s : st) : Prop :=
